@@ -27,6 +27,7 @@ import (
 	"github.com/cloudwego/eino/components/prompt"
 	"github.com/cloudwego/eino/components/retriever"
 	"github.com/cloudwego/eino/internal/generic"
+	"github.com/cloudwego/eino/internal/verifhook"
 	"github.com/cloudwego/eino/schema"
 )
 
@@ -51,6 +52,7 @@ func NewChainMultiBranch[T any](cond GraphMultiBranchCondition[T]) *ChainBranch 
 		for end := range ends {
 			endNodes = append(endNodes, end)
 		}
+		verifhook.Order(len(endNodes), func(i, j int) bool { return endNodes[i] < endNodes[j] }, func(i, j int) { endNodes[i], endNodes[j] = endNodes[j], endNodes[i] })
 		return endNodes, nil
 	}
 
@@ -70,6 +72,7 @@ func NewStreamChainMultiBranch[T any](cond StreamGraphMultiBranchCondition[T]) *
 		for end := range ends {
 			endNodes = append(endNodes, end)
 		}
+		verifhook.Order(len(endNodes), func(i, j int) bool { return endNodes[i] < endNodes[j] }, func(i, j int) { endNodes[i], endNodes[j] = endNodes[j], endNodes[i] })
 		return endNodes, nil
 	}
 
